@@ -926,4 +926,264 @@ theorem usedTs_regular (w : Wave) (lead k P dead : Nat) (more rest : List Nat) (
       · simp at hx; omega
     · exact h.used x hx
 
+/-! ## per-pixel mean -/
+
+theorem length_mul_le_sum : ∀ (l : List Int) (M : Int), (∀ x ∈ l, M ≤ x) → l.length * M ≤ l.sum
+  | [], _, _ => by simp
+  | a :: t, M, h => by
+    have ih := length_mul_le_sum t M (fun x hx => h x (List.mem_cons_of_mem _ hx))
+    have ha := h a List.mem_cons_self
+    simp only [List.sum_cons, List.length_cons]
+    have : ((t.length + 1 : Nat) : Int) * M = t.length * M + M := by
+      rw [Int.natCast_add, Int.add_mul]; omega
+    rw [this]; omega
+
+/-- the floor of the mean of a non-empty list lies between its minimum and its maximum -/
+theorem floor_mean_mem (r : List Int) (hne : r ≠ []) :
+    listMin r ≤ r.sum / r.length ∧ r.sum / r.length ≤ listMax r := by
+  have hlen : 0 < r.length := List.length_pos_iff.mpr hne
+  constructor
+  · have := length_mul_le_sum r (listMin r) (fun x hx => listMin_le r x hx)
+    exact (Int.le_ediv_iff_mul_le (by omega)).mpr (by
+      have := Int.mul_comm (r.length : Int) (listMin r); omega)
+  · have := sum_le_length_mul r (listMax r) (fun x hx => le_listMax r x hx)
+    exact Int.ediv_le_of_le_mul (by omega) (by
+      have := Int.mul_comm (r.length : Int) (listMax r); omega)
+
+theorem intMeanRows_leaf {rows : List (List Int)} {w : Nat} {t : Int}
+    (h : ¬(anyCould rows w = true ∧ 2 ≤ w)) : intMeanRows rows w t = rows.map fun r => r.sum / t := by
+  rw [intMeanRows, dif_neg h]
+
+/-- `timestamp_mean(axis=1)` is the row-wise floor mean whenever `(max − min)·w < 2⁶³` over the
+    whole array -/
+theorem tsMeanRows_floor (rows : List (List Int)) (w : Nat) (hw : 0 < w)
+    (hlen : ∀ r ∈ rows, r.length = w) (hne : rows.flatten ≠ [])
+    (hspan : (listMax rows.flatten - listMin rows.flatten) * w ≤ I64MAX) :
+    tsMeanRows rows w = some (rows.map fun r => r.sum / (w : Int)) := by
+  unfold tsMeanRows
+  rw [if_neg hne]
+  simp only [Option.some.injEq]
+  have hq : listMax rows.flatten - listMin rows.flatten ≤ I64MAX / (w : Int) :=
+    (Int.le_ediv_iff_mul_le (by omega)).mpr hspan
+  have hno : ¬(anyCould (rows.map fun r => r.map (· - listMin rows.flatten)) w = true ∧ 2 ≤ w) := by
+    intro ⟨hc, _⟩
+    simp only [anyCould, List.any_map, List.any_eq_true, Function.comp] at hc
+    rcases hc with ⟨r, hr, hc⟩
+    simp only [willMulOverflow, Bool.and_eq_true, decide_eq_true_eq] at hc
+    have hrne : r.map (· - listMin rows.flatten) ≠ [] := by
+      intro h
+      have hl := hlen r hr
+      have h' := congrArg List.length h
+      simp only [List.length_map, List.length_nil] at h'
+      omega
+    rcases List.mem_map.mp (listMax_mem _ hrne) with ⟨x, hx, hxe⟩
+    have hxF : x ∈ rows.flatten := List.mem_flatten.mpr ⟨r, hr, hx⟩
+    have := le_listMax _ x hxF
+    have hxe' : x - listMin rows.flatten = listMax (r.map (· - listMin rows.flatten)) := hxe
+    omega
+  rw [intMeanRows_leaf hno, List.map_map, List.map_map]
+  apply List.map_congr_left
+  intro r hr
+  simp only [Function.comp]
+  rw [sum_map_sub, hlen r hr]
+  have : r.sum - (w : Int) * listMin rows.flatten = r.sum + (w : Int) * (-listMin rows.flatten) := by
+    rw [Int.mul_neg]; omega
+  rw [this, Int.add_mul_ediv_left _ _ (by omega)]
+  omega
+
+theorem rowsOf_row_length {α} (k : Nat) (hk : 0 < k) (l : List α) :
+    ∀ r ∈ rowsOf k l, r.length = k := by
+  intro r hr
+  rw [rowsOf_eq] at hr
+  rcases List.mem_map.mp hr with ⟨j, hj, rfl⟩
+  have hj := List.mem_range.mp hj
+  have := mul_succ_le_of_lt_div _ _ _ hk hj
+  simp only [List.length_take, List.length_drop]
+  omega
+
+/-- image[r][l] of the kymograph is pixel `l·P + r`, `0` past the last complete pixel -/
+theorem kymoImage_eq (P : Nat) (pix : List Int) :
+    kymoImage P pix = (List.range P).map fun r =>
+      (List.range (numBlocks pix.length P)).map fun l => pix.getD (l * P + r) 0 := by
+  unfold kymoImage transposeN
+  apply List.map_congr_left
+  intro r hr
+  have hr := List.mem_range.mp hr
+  rw [padRows_eq, List.map_map]
+  apply List.map_congr_left
+  intro l _
+  simp only [Function.comp]
+  rw [getD_map_range _ _ _ hr]
+
+/-! ## photon-count image pixels of a regular wave -/
+
+/-- discarded samples do not matter: the pixel sums are those of the used codes and used data -/
+theorem pixelSums_used : ∀ (iw : List Nat) (data : List Int) (acc : Int),
+    pixelSums iw data acc = pixelSums (iw.filter (· ≠ 0)) (usedOf iw data) acc
+  | [], data, acc => by simp [pixelSums, usedOf]
+  | c :: cs, [], acc => by
+    simp only [pixelSums, usedOf]
+    cases h : (c :: cs).filter (· ≠ 0) <;> simp [pixelSums]
+  | c :: cs, x :: xs, acc => by
+    by_cases h0 : c = 0
+    · subst h0
+      simp only [pixelSums, usedOf, if_true, List.filter_cons]
+      simpa using pixelSums_used cs xs acc
+    · by_cases h2 : c = 2
+      · subst h2
+        simp only [pixelSums, usedOf, List.filter_cons]
+        simp [pixelSums, pixelSums_used cs xs 0]
+      · have hf : (c :: cs).filter (· ≠ 0) = c :: cs.filter (· ≠ 0) := by simp [List.filter_cons, h0]
+        rw [hf]
+        simp only [pixelSums, usedOf, if_neg h0, if_neg h2]
+        exact pixelSums_used cs xs (acc + x)
+
+theorem pixelSums_ones : ∀ (n : Nat) (xs : List Int) (acc : Int),
+    pixelSums (List.replicate n 1) xs acc = []
+  | 0, xs, acc => by simp [pixelSums]
+  | n + 1, [], acc => by simp [pixelSums, List.replicate_succ]
+  | n + 1, x :: xs, acc => by
+    simp only [List.replicate_succ, pixelSums]
+    simpa using pixelSums_ones n xs (acc + x)
+
+/-- one pixel of `k` used samples -/
+theorem pixelSums_pixel : ∀ (n : Nat) (cs : List Nat) (xs ys : List Int) (acc : Int),
+    xs.length = n + 1 →
+    pixelSums ((List.replicate n 1 ++ [2]) ++ cs) (xs ++ ys) acc = (acc + xs.sum) :: pixelSums cs ys 0
+  | 0, cs, [x], ys, acc, _ => by simp [pixelSums]
+  | 0, cs, [], ys, acc, h => by simp at h
+  | 0, cs, _ :: _ :: _, ys, acc, h => by simp at h
+  | n + 1, cs, [], ys, acc, h => by simp at h
+  | n + 1, cs, x :: xs, ys, acc, h => by
+    simp only [List.replicate_succ, List.cons_append, pixelSums, List.sum_cons]
+    have := pixelSums_pixel n cs xs ys (acc + x) (by simpa using h)
+    simp only [List.append_assoc] at this ⊢
+    simp only [show (1 : Nat) ≠ 0 by decide, show (1 : Nat) ≠ 2 by decide, if_false]
+    rw [this]; congr 1; omega
+
+/-- the pixel sums of `m` regular pixels followed by an incomplete one are the sums of the first `m`
+    rows of `k` used samples -/
+theorem pixelSums_regular (k : Nat) (hk : 0 < k) : ∀ (m r : Nat) (X : List Int),
+    m * k ≤ X.length →
+    pixelSums ((List.replicate m (pixelCodes k)).flatten ++ List.replicate r 1) X 0
+      = (takeRows k m X).map List.sum
+  | 0, r, X, _ => by simp [takeRows, pixelSums_ones]
+  | m + 1, r, X, h => by
+    have hkm : (m + 1) * k = m * k + k := by rw [Nat.add_mul]; omega
+    have hX : X = X.take k ++ X.drop k := (List.take_append_drop k X).symm
+    have hlen : (X.take k).length = (k - 1) + 1 := by simp only [List.length_take]; omega
+    conv => lhs; rw [hX]
+    simp only [List.replicate_succ, List.flatten_cons, takeRows, List.map_cons, List.append_assoc]
+    unfold pixelCodes
+    rw [pixelSums_pixel (k - 1) _ (X.take k) (X.drop k) 0 hlen]
+    congr 1
+    · omega
+    · have := pixelSums_regular k hk m r (X.drop k) (by simp only [List.length_drop]; omega)
+      unfold pixelCodes at this
+      exact this
+
+/-! ## `np.argmax(subset) + 1` of a regular wave is the pixel size -/
+
+def amStep (st : Nat × Nat × Int) (y : Int) : Nat × Nat × Int :=
+  let (best, i, bv) := st
+  if y > bv then (i, i + 1, y) else (best, i + 1, bv)
+
+theorem argmaxFirst_cons (x : Int) (xs : List Int) :
+    argmaxFirst (x :: xs) = some (xs.foldl amStep (0, 1, x)).1 := rfl
+
+theorem amStep_foldl_le : ∀ (xs : List Int) (b i : Nat) (bv : Int), (∀ y ∈ xs, y ≤ bv) →
+    xs.foldl amStep (b, i, bv) = (b, i + xs.length, bv)
+  | [], b, i, bv, _ => by simp
+  | y :: ys, b, i, bv, h => by
+    have hy := h y (by simp)
+    simp only [List.foldl_cons, List.length_cons]
+    have : amStep (b, i, bv) y = (b, i + 1, bv) := by
+      simp only [amStep]; rw [if_neg (by omega)]
+    rw [this, amStep_foldl_le ys b (i + 1) bv (fun z hz => h z (List.mem_cons_of_mem _ hz))]
+    congr 2; omega
+
+theorem argmaxFirst_pixel (k : Nat) (hk : 0 < k) (rest : List Nat) (hrest : ∀ c ∈ rest, c ≤ 2) :
+    argmaxFirst ((pixelCodes k ++ rest).map Int.ofNat) = some (k - 1) := by
+  have hr : ∀ y ∈ rest.map Int.ofNat, y ≤ 2 := by
+    intro y hy
+    rcases List.mem_map.mp hy with ⟨c, hc, rfl⟩
+    have := hrest c hc
+    simp only [Int.ofNat_eq_natCast]; omega
+  unfold pixelCodes
+  cases hn : k - 1 with
+  | zero =>
+    simp only [List.replicate_zero, List.nil_append, List.cons_append, List.map_cons]
+    rw [argmaxFirst_cons, amStep_foldl_le _ _ _ _ (by simpa using hr)]
+  | succ n =>
+    have e : ((List.replicate (n + 1) 1 ++ [2]) ++ rest).map Int.ofNat
+        = (1 : Int) :: ((List.replicate n 1).map Int.ofNat ++ ((2 : Int) :: rest.map Int.ofNat)) := by
+      simp [List.replicate_succ]
+    rw [e, argmaxFirst_cons, List.foldl_append,
+      amStep_foldl_le ((List.replicate n 1).map Int.ofNat) 0 1 1 (by
+        intro y hy
+        rcases List.mem_map.mp hy with ⟨c, hc, rfl⟩
+        rw [(List.mem_replicate.mp hc).2]; decide)]
+    simp only [List.length_map, List.length_replicate, List.foldl_cons]
+    have : amStep (0, 1 + n, 1) 2 = (1 + n, 1 + n + 1, 2) := by
+      simp only [amStep]; rw [if_pos (by decide)]
+    rw [this, amStep_foldl_le (rest.map Int.ofNat) _ _ 2 hr]
+    simp only [Option.some.injEq]; omega
+
+/-- a wave all of whose pixels have `k` used samples: `m ≥ 1` complete pixels, then `r < k` used
+    samples of an unfinished one -/
+def Wave.Regular (w : Wave) (k m r : Nat) : Prop :=
+  0 < k ∧ 0 < m ∧ r < k ∧ w.subset = (List.replicate m (pixelCodes k)).flatten ++ List.replicate r 1
+
+theorem Wave.Regular.pixelSize {w : Wave} {k m r : Nat} (h : w.Regular k m r) :
+    w.pixelSize = some k := by
+  obtain ⟨hk, hm, hr, hs⟩ := h
+  unfold Wave.pixelSize
+  rw [hs]
+  match m, hm with
+  | m + 1, _ =>
+    simp only [List.replicate_succ, List.flatten_cons, List.append_assoc]
+    rw [argmaxFirst_pixel k hk]
+    · simp; omega
+    · intro c hc
+      rcases List.mem_append.mp hc with hc | hc
+      · rcases List.mem_flatten.mp hc with ⟨p, hp, hcp⟩
+        rw [(List.mem_replicate.mp hp).2] at hcp
+        unfold pixelCodes at hcp
+        rcases List.mem_append.mp hcp with h' | h'
+        · rw [(List.mem_replicate.mp h').2]; decide
+        · simp at h'; omega
+      · rw [(List.mem_replicate.mp hc).2]; decide
+
+theorem usedOf_length {α} : ∀ (iw : List Nat) (xs : List α), xs.length = iw.length →
+    (usedOf iw xs).length = (iw.filter (· ≠ 0)).length
+  | [], [], _ => by simp [usedOf]
+  | [], _ :: _, h => by simp at h
+  | _ :: _, [], h => by simp at h
+  | c :: cs, x :: xs, h => by
+    have ih := usedOf_length cs xs (by simpa using h)
+    by_cases h0 : c = 0
+    · simp [usedOf, h0, ih]
+    · simp [usedOf, h0, ih]
+
+theorem flatten_replicate_length {α} (m : Nat) (p : List α) :
+    (List.replicate m p).flatten.length = m * p.length := by
+  induction m with
+  | zero => simp
+  | succ n ih => simp [List.replicate_succ, ih, Nat.add_mul]; omega
+
+theorem Wave.Regular.used_length {w : Wave} {k m r : Nat} (h : w.Regular k m r) :
+    w.usedTs.length = m * k + r := by
+  obtain ⟨hk, hm, hr, hs⟩ := h
+  unfold Wave.usedTs Wave.allTs
+  rw [usedOf_length _ _ (times_length _ _ _)]
+  have : w.iw.filter (· ≠ 0) = w.subset := rfl
+  rw [this, hs]
+  simp [pixelCodes_length k hk]
+
+theorem Wave.Regular.numPix {w : Wave} {k m r : Nat} (h : w.Regular k m r) :
+    w.usedTs.length / k = m := by
+  rw [h.used_length]
+  obtain ⟨hk, hm, hr, hs⟩ := h
+  rw [Nat.mul_comm, Nat.mul_add_div hk, Nat.div_eq_of_lt hr]; omega
+
 end Verif.C03
